@@ -831,14 +831,23 @@ def run(ctx):
 
     ctx.log("implementation run on %d cases" % len(C.coq))
     # ---- run the correspondence in Coq ---------------------------------------------------------------------------------------
-    per_file = 250
+    # shards of at most 250 cases and about 100 kB of literals (coqc time is proportional to the text)
+    shards, cur, cur_sz = [], [], 0
+    for ci_, ex_ in enumerate(C.coq):
+        if cur and (len(cur) >= 250 or cur_sz + len(ex_) > 100000):
+            shards.append(cur)
+            cur, cur_sz = [], 0
+        cur.append(ci_)
+        cur_sz += len(ex_)
+    if cur:
+        shards.append(cur)
     files = []
-    for si in range(0, len(C.coq), per_file):
-        chunk = C.coq[si:si + per_file]
+    for si, ids_ in enumerate(shards):
+        chunk = [C.coq[t] for t in ids_]
         txt = ("Require Import Cherab.Common.Qx Cherab.Model.C13_Wrappers Cherab.Model.C13_Float Cherab.Model.C13_Check.\n"
                "From Coq Require Import String.\nOpen Scope Q_scope.\nDefinition results : list bool := [\n  " + ";\n  ".join(chunk)
                + "].\nEval vm_compute in (failing results).\n")
-        files.append((ctx.write_gen("cases_%03d.v" % (si // per_file), txt), list(range(si, si + len(chunk)))))
+        files.append((ctx.write_gen("cases_%03d.v" % si, txt), ids_))
     res = coqc_many([f for f, _ in files], timeout=900)
     diff_cases = []
     for f, ids in files:
@@ -893,7 +902,7 @@ def run(ctx):
         "tolerance": {"routing, clamp, periodic remainder": "bit for bit (binary64)",
                       "radius (libm hypot) vs exact sqrt(x^2+y^2)": "max(2^-51 relative, 2^-1074 absolute), finite result required, whole finite range, decided exactly on the squares",
                       "periodic vs exact reduction": "2^-52 * period", "rotated vector": "2^-40 of the largest component (libm cos/sin, rotate_z); exact on the axis with x = +0 (no rotation); subnormal-near-zero points are scaled by 2^1000 exactly before forming (x/r, y/r)",
-                      "linspace interior points": "2^-48 of max(|a|,|b|); end points exact", "mask": "exact boolean at points with margin >= 2^-20 size",
+                      "sampler coordinate arrays": "bit for bit against numpy.linspace evaluated in the binary64 model (linspace_F)", "mask": "exact boolean at points with margin >= 2^-20 size",
                       "constructor errors": "exact"},
         "compared_inside_coq": [
             ["arguments received by the wrapped callable of Swizzle2D/3D, Slice2D/3D, IsoMapper2D/3D (inner and outer function), "
@@ -906,7 +915,9 @@ def run(ctx):
             ["angle handed to the wrapped function by the two cylindrical wrappers", "chk_quadrant (rational enclosure of pi)",
              "quadrant exact; signed-zero branch exact; the value itself only bitwise against Python math.atan2 in the search"],
             ["vector returned by the two vector wrappers", "rotz (x/rho, y/rho) v", "2^-40 of the largest component; exact on the axis with x = +0"],
-            ["axes returned by the range samplers", "linspace", "end points exact, interior 2^-48 max(|a|,|b|)"],
+            ["coordinate arrays returned by the five range samplers (every axis)", "linspace_F: numpy.linspace's formula evaluated on primitive binary64",
+             "bit for bit (first point == min, last point == max, interior points equal); class exact_grid: non-representable end points, "
+             "counts 2..200 incl. primes / 38 / 50 / 99, negative and large offsets, sampled function defined on exactly the requested box"],
             ["entry [i][j][k] (all three components for vector samplers are checked in the search) of all 14 samplers", "sample1d/2d/3d, *_points", "exact"],
             ["PolygonMask2D value", "point_in_polygon (even-odd crossing)", "exact, at points >= 2^-20 size from every edge"],
             ["exception (or none) of every constructor / sampler range / recorded rejected form", "*_validate, form_policy", "exact"],
